@@ -40,9 +40,31 @@ func (u *unionFindFun) unifyFunctional(xs []ast.BaseTerm, ys []ast.BaseTerm) err
 			if x.Equals(ast.Variable{"_"}) || y.Equals(ast.Variable{"_"}) {
 				continue
 			}
-			u.ufrel.parent[x] = x
-			u.ufrel.parent[y] = y
-			unifyTermsUpdate([]ast.BaseTerm{x}, []ast.BaseTerm{y}, u.ufrel)
+			// A variable that stands for a constructed type cannot be a base type as well.
+			if xv, ok := x.(ast.Variable); ok {
+				if prev, bound := u.subst[xv]; bound {
+					if _, isConst := y.(ast.Constant); isConst {
+						return fmt.Errorf("cannot unify %v and %v", prev, y)
+					}
+				}
+			}
+			if yv, ok := y.(ast.Variable); ok {
+				if prev, bound := u.subst[yv]; bound {
+					if _, isConst := x.(ast.Constant); isConst {
+						return fmt.Errorf("cannot unify %v and %v", x, prev)
+					}
+				}
+			}
+			// (A term that was met before keeps what it has been unified with.)
+			if _, ok := u.ufrel.parent[x]; !ok {
+				u.ufrel.parent[x] = x
+			}
+			if _, ok := u.ufrel.parent[y]; !ok {
+				u.ufrel.parent[y] = y
+			}
+			if err := unifyTermsUpdate([]ast.BaseTerm{x}, []ast.BaseTerm{y}, u.ufrel); err != nil {
+				return err
+			}
 			continue
 		}
 		if yOk && !xOk {
@@ -57,6 +79,18 @@ func (u *unionFindFun) unifyFunctional(xs []ast.BaseTerm, ys []ast.BaseTerm) err
 			}
 			if yExisting := u.ufrel.find(yVar); yExisting != nil && !yExisting.Equals(xApply) {
 				return fmt.Errorf("cannot unify %v and %v", x, yExisting)
+			}
+			// The variable may stand for a constructed type already: the two
+			// have to unify as well.
+			if prev, ok := u.subst[yVar]; ok && !prev.Equals(xApply) {
+				prevApply, ok := prev.(ast.ApplyFn)
+				if !ok || prevApply.Function != xApply.Function || len(prevApply.Args) != len(xApply.Args) {
+					return fmt.Errorf("cannot unify %v and %v", prev, xApply)
+				}
+				if err := u.unifyFunctional(prevApply.Args, xApply.Args); err != nil {
+					return err
+				}
+				continue
 			}
 
 			u.subst[yVar] = xApply
